@@ -583,9 +583,32 @@ fn run_sched_child(kind: usize, tuple: &[usize], bound: usize, gran: u8, wall: u
     if let Some(r) = replay {
         args.push(r.iter().map(|x| x.to_string()).collect::<Vec<_>>().join(","));
     }
-    let o = Command::new(&exe).args(&args).stderr(Stdio::null()).output().map_err(|e| e.to_string())?;
-    let s = String::from_utf8_lossy(&o.stdout);
-    let line = s.lines().rev().find(|l| l.starts_with('{')).ok_or_else(|| format!("no result from scheduler child (status {:?})", o.status))?;
+    // the child stops exploring at `wall`; one execution may add the hang limit to that. A child that is silent
+    // for much longer is killed and reported as a machinery failure (never left hanging, never a verdict).
+    let limit = Duration::from_secs(wall * 2 + 300);
+    let mut child = Command::new(&exe).args(&args).stderr(Stdio::null()).stdout(Stdio::piped()).spawn().map_err(|e| e.to_string())?;
+    let mut out = child.stdout.take().ok_or("no stdout")?;
+    let reader = std::thread::spawn(move || {
+        let mut s = String::new();
+        let _ = std::io::Read::read_to_string(&mut out, &mut s);
+        s
+    });
+    let start = Instant::now();
+    let status = loop {
+        match child.try_wait().map_err(|e| e.to_string())? {
+            Some(st) => break st,
+            None => {
+                if start.elapsed() > limit {
+                    let _ = child.kill();
+                    let _ = child.wait();
+                    return Err(format!("scheduler child {:?} did not finish within {} s and was killed", args, limit.as_secs()));
+                }
+                std::thread::sleep(Duration::from_millis(50));
+            }
+        }
+    };
+    let s = reader.join().unwrap_or_default();
+    let line = s.lines().rev().find(|l| l.starts_with('{')).ok_or_else(|| format!("no result from scheduler child (status {:?})", status))?;
     serde_json::from_str(line).map_err(|e| e.to_string())
 }
 
